@@ -238,6 +238,22 @@ def _hook_pair(interp, fi, recv, args, kwargs, res, ev):
     return res.with_quals(q) if q else res
 
 
+def _tag_hook(tagname):
+    def hook(interp, fi, recv, args, kwargs, res, ev):
+        tags = {(tagname, l) for l in (recv.alias if recv is not None else ())}
+        if not tags:
+            return res
+        res = res.with_deps(tags)
+        if res.elem is not None:
+            res = replace(res, elem=res.elem.with_deps(tags))
+        return res
+    return hook
+
+
+CFG_TAGS = {"get_generating_symbols": "GENERATING", "get_reachable_symbols": "REACHABLE",
+            "get_nullable_symbols": "NULLABLE", "get_unit_pairs": "UNITPAIRS"}
+
+
 def _hook_epsilon_new(interp, fi, recv, args, kwargs, res, ev):
     return res
 
@@ -250,6 +266,8 @@ def install(interp):
         for m in ("__call__", "get_edges", "get_transitions_from", "to_dict", "__iter__"):
             hooks[tfc + "." + m] = _hook_delta
     hooks[FA + "epsilon_nfa.combine_state_pair"] = _hook_pair
+    for m, tg in CFG_TAGS.items():
+        hooks[CFG + "." + m] = _tag_hook(tg)
     for h in hooks:
         if h not in prog.functions:
             raise AnalysisError("model: hooked function vanished: %s" % h)
